@@ -6,6 +6,11 @@
 #![allow(dead_code)]
 
 pub mod util;
+pub mod alloc_watch;
+
+#[global_allocator]
+static GLOBAL: alloc_watch::WatchAlloc = alloc_watch::WatchAlloc;
+
 pub mod engine;
 pub mod hal;
 pub mod mmio;
@@ -24,6 +29,7 @@ pub mod drivers;
 pub mod cosim;
 pub mod c13;
 pub mod c08;
+pub mod c09;
 pub mod replay;
 
 pub use engine::chooser::{choose, deviate};
